@@ -102,6 +102,18 @@ const PIPE_REPLY: usize = 9 + 2 * NET_REGS as usize;
 /// `read_replies = false` (step `Z`): the peer stalls - it writes the requests, never reads, and
 /// keeps the connection open, so that the session is left blocked in the write of a reply
 async fn pipeline(s: &mut TcpStream, cnt: usize, calls: &AtomicUsize, read_replies: bool) -> String {
+    pipeline_mid(s, cnt, calls, read_replies, None).await
+}
+
+/// `mid`: decode-level changes made through the server handle between the two phases, i.e. while
+/// the session is blocked in a write and does not poll its command queue
+async fn pipeline_mid(
+    s: &mut TcpStream,
+    cnt: usize,
+    calls: &AtomicUsize,
+    read_replies: bool,
+    mid: Option<(&mut ServerHandle, usize)>,
+) -> String {
     let mut reqs = Vec::with_capacity(cnt * PIPE_REQ);
     for i in 0..cnt {
         let t = i as u16;
@@ -143,6 +155,13 @@ async fn pipeline(s: &mut TcpStream, cnt: usize, calls: &AtomicUsize, read_repli
     }
     if !read_replies {
         return String::new();
+    }
+    if let Some((h, l)) = mid {
+        for i in 0..l {
+            let lvl = if i % 2 == 0 { "d322" } else { "d000" };
+            let _ = tokio::time::timeout(Duration::from_millis(500), h.set_decode_level(decode_level(lvl))).await;
+        }
+        tokio::time::sleep(Duration::from_millis(30)).await;
     }
     // phase 2: read (and write what is left)
     let total = cnt * PIPE_REPLY;
@@ -353,10 +372,17 @@ pub async fn run_net(tok: &[&str]) -> String {
                     out.push(format!("q{rest}:{r}"));
                 }
                 "P" => {
-                    let (k, cnt) = rest.split_once('.').unwrap();
+                    // `P<k>.<n>[.<l>]`: l decode-level changes while the session is blocked in a write
+                    let mut parts = rest.split('.');
+                    let k = parts.next().unwrap();
+                    let cnt: usize = parts.next().unwrap().parse().unwrap();
+                    let l: usize = parts.next().map(|x| x.parse().unwrap()).unwrap_or(0);
                     let r = match conns.get_mut(k) {
                         None => "noconn".to_string(),
-                        Some(s) => pipeline(s, cnt.parse().unwrap(), &calls, true).await,
+                        Some(s) => match handle.as_mut() {
+                            Some(h) if l > 0 => pipeline_mid(s, cnt, &calls, true, Some((h, l))).await,
+                            _ => pipeline(s, cnt, &calls, true).await,
+                        },
                     };
                     out.push(format!("P{k}:{r}"));
                 }
